@@ -521,6 +521,7 @@ type vPair struct {
 	Kind      string  `json:"kind"`      // generator's label (distribution statistics only)
 	Delayed   bool    `json:"delayed,omitempty"`   // delayed-VDR schedule: the DAG verifier sees this transaction earlier than the ambassador
 	DagBefore int     `json:"dagBefore,omitempty"` // ... namely just before the pair with this index is processed
+	Ev        *vEv    `json:"ev,omitempty"`        // entry layer: the pair arrives as a DAG event at the subscription ambassador.Start makes
 	tx        vTx     // parsed
 	payload   []byte
 }
@@ -601,6 +602,14 @@ type vNode struct {
 	keyRes   dag.SourceTXKeyResolver
 	res      Resolver
 	notified int
+	// entry layer (zz_verif_c09entry_test.go)
+	subs     []*vSubscription
+	started  bool
+	notifier dag.Notifier
+	probe    dag.Notifier
+	recv     dag.ReceiverFn
+	reached  bool
+	ack      string
 }
 
 func vNewNode(t *testing.T, ctrl *gomock.Controller, path string) *vNode {
@@ -615,7 +624,7 @@ func vNewNode(t *testing.T, ctrl *gomock.Controller, path string) *vNode {
 	n := &vNode{t: t, path: path, db: db, store: st}
 	nw := network.NewMockTransactions(ctrl)
 	nw.EXPECT().DiscoverServices(gomock.Any()).AnyTimes().Do(func(_ did.DID) { n.notified++ })
-	n.amb = NewAmbassador(nw, st, nil).(*ambassador)
+	n.amb = NewAmbassador(&vNet{MockTransactions: nw, node: n}, st, nil).(*ambassador)
 	n.res = Resolver{Store: st}
 	n.keyRes = dag.SourceTXKeyResolver{Resolver: n.res}
 	// the DAG's signature verifier is wired as in Network.Configure: its key resolver reads the DID store directly
@@ -721,6 +730,9 @@ func vCallbackClass(err error) string {
 		return "ok"
 	}
 	msg := err.Error()
+	if c, ok := vFaultClass(msg); ok {
+		return c
+	}
 	switch {
 	case strings.Contains(msg, "wrong payload type"):
 		return "err:integrity:payload-type"
@@ -818,15 +830,8 @@ func (n *vNode) signedByKidKey(p *vPair) (ok bool) {
 // the callback is entered the way the network enters it: through the subscriber function handleNetworkEvent
 func (n *vNode) viaSubscriber(p *vPair) string {
 	finished, err := n.amb.handleNetworkEvent(dag.Event{Type: dag.PayloadEventType, Hash: p.tx.Ref(), Transaction: p.tx, Payload: p.payload})
-	var fatal dag.EventFatal
-	if errors.As(err, &fatal) {
-		err = fatal.Err
-	}
-	class := vCallbackClass(err)
-	if finished != (err == nil) {
-		class += "+FINISHED-MISMATCH"
-	}
-	return class
+	// ok | err:<class> (wrapped into dag.EventFatal) | retry:err:<class> (returned bare)
+	return vAckClass(finished, err)
 }
 
 // ---------------------------------------------------------------------------------------------
@@ -1877,6 +1882,7 @@ type vOp struct {
 	CB       *bool    `json:"cb,omitempty"`       // pair: straight into the callback (no verifier at this moment)
 	Is       []int    `json:"is,omitempty"`       // reprocess: indexes of the deliveries that are replayed
 	Verified bool     `json:"verified,omitempty"` // pair: the DAG signature verifier has admitted this transaction (now or earlier)
+	Ev       *vEvView `json:"ev,omitempty"`       // pair: delivered as a DAG event through the Start subscription (type, payload type, store fault)
 }
 
 type vRunner struct {
@@ -1895,7 +1901,7 @@ const vReprocessSubject = "verif.c09.reprocess"
 // one REPROCESS.application/did+json message as Network.Reprocess publishes it, received over real NATS (so that Ack works)
 func (r *vRunner) reprocessMsg(p *vPair) *nats.Msg {
 	if r.natsConn == nil {
-		em := events.NewTestManager(r.t)
+		em := vEvents(r.t)
 		ec, _, err := em.Pool().Acquire(context.Background())
 		if err != nil {
 			r.t.Fatal(err)
@@ -2044,12 +2050,14 @@ func (r *vRunner) runHistory(h int, label string, noVerify bool, pairs []*vPair,
 		// independent signature check in the state the ambassador sees BEFORE it processes the pair (afterwards the
 		// versions of the DID may have been re-derived and the prevs can select another version)
 		sigByKidKey := true
-		if (!noVerify || p.Delayed) && p.tx.SigningKey() == nil {
+		if (!noVerify || p.Delayed) && p.Ev == nil && p.tx.SigningKey() == nil {
 			sigByKidKey = n.signedByKidKey(p)
 		}
 		var class string
-		cbOnly := noVerify || p.Delayed
-		if p.Delayed {
+		cbOnly := noVerify || p.Delayed || p.Ev != nil
+		if p.Ev != nil {
+			class = n.viaEntry(p)
+		} else if p.Delayed {
 			class = n.viaSubscriber(p)
 		} else {
 			class = n.deliver(p)
@@ -2068,8 +2076,8 @@ func (r *vRunner) runHistory(h int, label string, noVerify bool, pairs []*vPair,
 			onDAG = append(onDAG, i)
 		}
 		view := vTxViewOf(p.tx, p.Signer)
-		verified := !noVerify || p.Delayed
-		emitOp(vOp{Op: "pair", H: h, I: i, Tx: &view, Doc: vParsePayload(p.payload), Raw: p, CB: &cbOnly, Verified: verified})
+		verified := (!noVerify || p.Delayed) && p.Ev == nil
+		emitOp(vOp{Op: "pair", H: h, I: i, Tx: &view, Doc: vParsePayload(p.payload), Raw: p, CB: &cbOnly, Verified: verified, Ev: vEvViewOf(p)})
 		// direct oracle material, implementation only: raw database identity and the network notification
 		inert := "db-same"
 		if before != after {
@@ -2143,7 +2151,12 @@ func (r *vRunner) genHistory(h int, rng *rand.Rand, steps int, kind string, noVe
 	n.noVerify = noVerify
 	var first []string
 	run := func(p *vPair) bool {
-		class := n.deliver(p)
+		var class string
+		if p.Ev != nil {
+			class = n.viaEntry(p)
+		} else {
+			class = n.deliver(p)
+		}
 		first = append(first, class)
 		if g.pending != nil {
 			g.pending(class == "ok")
@@ -2184,7 +2197,11 @@ func (r *vRunner) genHistory(h int, rng *rand.Rand, steps int, kind string, noVe
 				continue
 			}
 		}
-		run(g.stepRandom())
+		sp := g.stepRandom()
+		if !sp.Delayed && g.rng.Intn(8) == 0 { // this step arrives as a DAG event at the Start subscription
+			sp.Ev = g.randomEv()
+		}
+		run(sp)
 		if g.rng.Intn(12) == 0 && len(g.pairs) > 0 { // re-delivery of an earlier pair
 			old := g.pairs[g.rng.Intn(len(g.pairs))]
 			dup := *old
@@ -2202,6 +2219,8 @@ func (r *vRunner) genHistory(h int, rng *rand.Rand, steps int, kind string, noVe
 func vScenario(g *vGen, kind string, run func(p *vPair) bool) {
 	switch {
 	case kind == "mixed":
+	case kind == "entry-layer":
+		vEntryScenario(g, run)
 	case strings.HasPrefix(kind, "chain"), strings.HasPrefix(kind, "cycle"):
 		// D0 <- D1 <- ... <- Dk : Di is controlled by Di+1; chain: Dk controls itself; cycle: Dk is controlled by D0
 		k, _ := strconv.Atoi(kind[5:])
@@ -2728,7 +2747,7 @@ func TestVerifC09(t *testing.T) {
 	}
 	rng := rand.New(rand.NewSource(seed*7919 + 9))
 	scripted := []string{"chain0", "chain1", "chain2", "chain3", "chain4", "chain5", "chain6", "cycle1", "cycle2", "cycle3", "cycle5",
-		"deactivated-controller", "removed-key", "validator-sweep", "embedded-capinv", "handed-over", "key-swap", "did-prefix", "delayed-vdr", "unknown-did", "relationship-subsets", "deactivated-controller-alias", "chosen-signing-time", "old-prev-first"}
+		"deactivated-controller", "removed-key", "validator-sweep", "embedded-capinv", "handed-over", "key-swap", "did-prefix", "delayed-vdr", "unknown-did", "relationship-subsets", "deactivated-controller-alias", "chosen-signing-time", "old-prev-first", "entry-layer"}
 	for h := 0; h < nHist; h++ {
 		kind := "mixed"
 		if h%2 == 0 {
